@@ -88,6 +88,7 @@ class TriggerHandler:
         """
         self.__old_thread_trace = None
         self.__old_sys_trace = None
+        self.__stopped = False
         self.__trace_installed = False
         self._push_service = push_service
         self._tp_config: List[Trigger] = []
@@ -97,6 +98,7 @@ class TriggerHandler:
 
     def start(self):
         """Start the trigger handler."""
+        self.__stopped = False
         # if we call settrace we cannot use debugger,
         # so we allow the settrace to be disabled, so we can at least debug around it
         if self._config.NO_TRACE:
@@ -117,6 +119,9 @@ class TriggerHandler:
 
         :param new_config: the new config to use
         """
+        if self.__stopped:
+            # an update that was still on its way when we were shut down: a stopped handler takes no further actions
+            return
         self._tp_config = new_config
 
     def trace_call(self, frame: FrameType, event: str, arg):
@@ -242,6 +247,7 @@ class TriggerHandler:
         Reset the settrace to the previous values.
         """
         # threads that already use our trace function keep it, so make sure it has nothing left to act on
+        self.__stopped = True
         self._tp_config = []
         # only put back the previous values if we did replace them (we do not when NO_TRACE is set)
         if not self.__trace_installed:
